@@ -95,6 +95,15 @@ def run_v(res, unit_files, rlimit=None, filter_units=None):
     except overlay.OverlayError as e:
         res.undecided.append(f"overlay error: {e}")
         return
+    # rlimit exceeded somewhere and nothing else wrong: one retry with a 6x resource limit before giving up (DESIGN §2.4)
+    if not r1["timeout"]:
+        errs = core.diag_errors(r1)
+        if errs and any("rlimit" in d.get("message", "") for d in errs):
+            core.log("[V] rlimit exceeded; retrying once with --rlimit 60")
+            r1b = core.run_verus(root1, rlimit=60)
+            if not r1b["timeout"] and r1b["summary"]:
+                r1 = r1b
+                res.notes.append("Verus pass re-run with --rlimit 60 after a resource-limit hit at the default limit")
     res.cmds.append(" ".join(r1["cmd"][:4]) + " … (Verus as rustc of the real crate, overlay applied; full command in coverage.checker_cmd)")
     res.checker_cmd = " ".join(r1["cmd"])
     res.units += ov1.units
